@@ -20,9 +20,10 @@ func (g *Goroutine) timeValue(ns int64) Value {
 }
 
 type timerState struct {
-	vt *vtimer
-	ch *Chan
-	f  Value
+	vt      *vtimer
+	ch      *Chan
+	f       Value
+	stopped bool
 }
 
 func addTimeIntrinsics(m map[string]Intrinsic) {
@@ -79,6 +80,44 @@ func addTimeIntrinsics(m map[string]Intrinsic) {
 	m["time.After"] = func(g *Goroutine, c *frame, fn *ssa.Function, a []Value) (Value, bool) {
 		t := newTimer(g, g.forceInt(a[0]), Value{K: KFunc})
 		return t.ptr().agg()[0], true
+	}
+	m["time.NewTicker"] = func(g *Goroutine, c *frame, fn *ssa.Function, a []Value) (Value, bool) {
+		d := g.forceInt(a[0])
+		if d <= 0 {
+			panic(&goPanic{val: g.w.prog.newError("non-positive interval for NewTicker"), site: c.stableSite(), msg: "non-positive interval for NewTicker"})
+		}
+		prog := g.w.prog
+		tt := prog.namedType("time", "Ticker")
+		st := tt.Underlying().(*types.Struct)
+		fields := make([]Value, st.NumFields())
+		for i := range fields {
+			fields[i] = zero(st.Field(i).Type())
+		}
+		cell := &Value{K: KAgg, R: fields}
+		ts := &timerState{}
+		ts.ch = newChan(1, prog.namedType("time", "Time"))
+		fields[0] = Value{K: KChan, R: ts.ch}
+		var arm func()
+		arm = func() {
+			ts.vt = g.p.sched.addTimer(d, func(cur *Goroutine) {
+				if len(ts.ch.buf) < ts.ch.cap || firstActive(&ts.ch.recvq) != nil {
+					cur.trySend(nil, ts.ch, cur.timeValue(cur.p.sched.now))
+				}
+				if !ts.stopped {
+					arm()
+				}
+			})
+		}
+		arm()
+		g.p.side[cell] = ts
+		return mkPtr(cell), true
+	}
+	m["(*time.Ticker).Stop"] = func(g *Goroutine, c *frame, fn *ssa.Function, a []Value) (Value, bool) {
+		if ts, ok := g.p.side[a[0].ptr()].(*timerState); ok {
+			ts.stopped = true
+			ts.vt.active = false
+		}
+		return Value{}, true
 	}
 	m["(*time.Timer).Stop"] = func(g *Goroutine, c *frame, fn *ssa.Function, a []Value) (Value, bool) {
 		ts, ok := g.p.side[a[0].ptr()].(*timerState)
